@@ -181,7 +181,7 @@ theorem wellFormed_invariant (P : Prims) (keys : List Nat) (p : Loop) (hw : p.we
   apply flatMap_congr_mem
   intro u hmem
   have hu' := hu u hmem
-  simp only [Bool.and_eq_true, bne_iff_ne, ne_eq, Bool.or_eq_true] at hu'
+  simp only [bne_iff_ne, ne_eq, Bool.or_eq_true] at hu'
   rw [accOf_flatMap, accOf_flatMap]
   refine observe_invariant keys u.2 _ hu'.1 ?_ l l' h
   intro hb x e he
